@@ -46,6 +46,9 @@ type Outcome struct {
 	Summary any
 	// Counters are summed over all cases (e.g. operations executed / operations that were no-ops).
 	Counters map[string]int
+	// NoShrink: the failure is reported as it is (used for spin verdicts, where every further
+	// execution costs the whole real-time budget and leaves a busy goroutine behind).
+	NoShrink bool
 	// Known is set when the failure matches a listed known finding (Err is then
 	// reported as KNOWN-FINDING, not as a violation).
 	Known string
@@ -300,6 +303,11 @@ func Run[S any](t *testing.T, p Prop[S]) {
 			r.frag.Violations++
 			r.mu.Unlock()
 			r.writeReplay(js, o.Err)
+			if o.NoShrink {
+				r.writeFrag(start)
+				fmt.Printf("property %s violated (not shrunk): %v\nscript: %s\n", p.ID, o.Err, js)
+				os.Exit(1)
+			}
 			rt.Fatalf("property %s violated: %v\nscript: %s", p.ID, o.Err, js)
 		}
 	})
